@@ -20,13 +20,8 @@ func isBlackTag(s string) bool {
 		}
 	}
 
-	switch sUpperWithoutNulls {
 	// anything SVG or XSL(t) related
-	case "SVT", "XSL":
-		return true
-	default:
-		return false
-	}
+	return strings.HasPrefix(sUpperWithoutNulls, "SVG") || strings.HasPrefix(sUpperWithoutNulls, "XSL")
 }
 
 func isBlackAttr(s string) int {
